@@ -1,7 +1,8 @@
 //! C14: every `AggregateFunc` (count, sum, avg, min, max, stddev, first, last, count_distinct, ema)
 //! on every execution path: `apply` (row), `apply_refs`, `apply_shared`, `apply_columnar`, and the
 //! same three paths through `Aggregator` (which shares one cached float column between
-//! sum/avg/min/max). Inputs are dyadic rationals / small ints (exact in f64) mixed with missing,
+//! sum/avg/min/max), and through VPL `T.window(n).aggregate(...)` programs (parse + load + process).
+//! Inputs are dyadic rationals / small ints (exact in f64) mixed with missing,
 //! non-numeric and NaN fields; f64 results are printed as bit patterns (decoded exactly by the model).
 use crate::util::Ctx;
 use std::sync::Arc;
@@ -114,8 +115,46 @@ fn batch(ctx: &mut Ctx, vals: &[V], field: &str, use_default_field: bool) {
     if nvalid == vals.len() { ctx.count("batch.all-valid"); }
 }
 
+/// the same batch through a VPL program: `T.window(len).aggregate(...)` via parse + load + process
+/// (the engine's `RuntimeOp::Aggregate` calls `Aggregator::apply_shared` on the window's events)
+fn engine_batch(ctx: &mut Ctx, rt: &tokio::runtime::Runtime, vals: &[V]) {
+    if vals.is_empty() { return; }
+    let names = [("count", "count()".to_string()), ("sum", "sum(x)".into()), ("avg", "avg(x)".into()), ("min", "min(x)".into()),
+        ("max", "max(x)".into()), ("stddev", "stddev(x)".into()), ("first", "first(x)".into()), ("last", "last(x)".into()),
+        ("cdist", if vals.len() % 2 == 0 { "count_distinct(x)".into() } else { "count(distinct(x))".into() }),
+        ("ema3", "ema(x, 3)".into()), ("ema9", "ema(x, 9)".into())];
+    let aggs = names.iter().map(|(n, e)| format!("r_{}: {}", n, e)).collect::<Vec<_>>().join(", ");
+    let emits = names.iter().map(|(n, _)| format!("r_{}: r_{}", n, n)).collect::<Vec<_>>().join(", ");
+    let src = format!("stream S = T\n    .window({})\n    .aggregate({})\n    .emit({})\n", vals.len(), aggs, emits);
+    let prog = match varpulis_parser::parse(&src) {
+        Ok(p) => p,
+        Err(e) => { eprintln!("generator error: program does not parse: {e:?}\n{src}"); std::process::exit(3); }
+    };
+    let (tx, mut rx) = tokio::sync::mpsc::channel::<Event>(64);
+    let mut engine = varpulis_runtime::Engine::new(tx);
+    if let Err(e) = engine.load(&prog) { eprintln!("generator error: load failed: {e}\n{src}"); std::process::exit(3); }
+    let base = chrono::DateTime::from_timestamp_millis(1_700_000_000_000).expect("ts");
+    for (i, v) in vals.iter().enumerate() {
+        let mut e = Event::new("T").with_timestamp(base + chrono::Duration::milliseconds(i as i64)).with_field("seq", i as i64);
+        if let Some(x) = v.value() { e = e.with_field("x", x); }
+        if rt.block_on(engine.process(e)).is_err() { ctx.count("engine.process-error"); }
+    }
+    let mut outs: Vec<Event> = Vec::new();
+    while let Ok(o) = rx.try_recv() { if &*o.event_type == "S" { outs.push(o); } }
+    let toks = vals.iter().map(|v| v.tok()).collect::<Vec<_>>().join(" ");
+    ctx.count(&format!("engine.outputs.{}", outs.len().min(2)));
+    for (n, _) in names.iter() {
+        let r = match outs.len() {
+            1 => outs[0].data.get(format!("r_{}", n).as_str()).map(res_tok).unwrap_or("absent".into()),
+            k => format!("OUTPUTS{}", k),
+        };
+        ctx.case(&format!("agg {} {}", n, toks), &format!("eng={}", r));
+    }
+}
+
 pub fn run(ctx: &mut Ctx, _name: &str) {
     ctx.directive("new agg");
+    let rt = tokio::runtime::Builder::new_current_thread().enable_all().build().expect("rt");
     let clean = Mix { missing: 0, nonnum: 0, nan: 0, int: 30, few: false };
     // every length 0..=67 with all-valid values: every residue mod 4 of the SIMD / unrolled loops
     for len in 0..=67usize {
@@ -136,5 +175,6 @@ pub fn run(ctx: &mut Ctx, _name: &str) {
         let vals: Vec<V> = (0..len).map(|_| gen_val(ctx, &mix)).collect();
         // now and then use the default field name (`field = None` → "value")
         if r % 7 == 0 { batch(ctx, &vals, "value", true); ctx.count("field.default"); } else { batch(ctx, &vals, "x", false); }
+        if r % 4 == 1 { engine_batch(ctx, &rt, &vals); }
     }
 }
